@@ -189,6 +189,7 @@ TraceWait ==
                 <<"c13", "C13_HonoursClose", (sc.mut # "") => (e.got = 1 /\ e.alive = 0 /\ e.extra = 0)>>,
                 <<"c11", "C11_Outcome", (Plain /\ e.got = 1) => e.err \in allowed>>,
                 <<"c11", "C11_EOSOnlyAfterLast", (sc.mut = "" /\ e.err = "eos") => AllEnded>>,
+                <<"c10", "C10_StreamCompletes", (Plain /\ AllEnded) => (e.err = "eos" /\ ~st.forced)>>,
                 <<"c10", "C10_EveryUnitDelivered", (Plain /\ e.err = "eos") => Complete>>
               >>)
      IN f' = r[1] /\ why' = r[2]
